@@ -27,6 +27,6 @@ def check(ctx):
         kernel.ite_rules(ctx, lib)
         kernel.R_restrict(ctx, lib)
         n = kernel.F_memo(ctx, lib, which=("restrict", "ite"))
-        ctx.floor("S.F-memo", "inserts (restrict_cache 3 + ite_cache 1)", n, 4)
+        ctx.floor("S.F-memo", "memo inserts examined (vacuity guard; dropping an insert only costs time)", n, 2)
         kernel.W_store(ctx, {"lib": lib})
         deps.node_function(ctx, lib)
